@@ -145,6 +145,35 @@ def run(rep, tier, rng):
         need = {"deref"} | ({"deref_mut"} if "DerefMut" in c.meta["traits"] else set())
         if not need <= {e.get("k") for e in c.events}:
             rep.inconcl("missing observation in " + c.name)
+    # DerefMut derived alone, next to a hand-written Deref: fine when its Target is the field's type; when the Target is only
+    # something the field coerces to (String -> str, Vec<u8> -> [u8]) the derived deref_mut must not type-check
+    mixed = []
+    for fty, tgt, good, val in (("::std::string::String", "str", True, "::std::string::String::from(\"ab\")"), ("::std::vec::Vec<u8>", "[u8]", True, "vec![1u8]"),
+                                ("::std::string::String", "::std::string::String", False, "::std::string::String::from(\"ab\")"),
+                                ("::std::boxed::Box<u8>", "u8", True, "::std::boxed::Box::new(1u8)")):
+        for entry in ("attr", "derive"):
+            head = "#[::derive_ex::derive_ex(DerefMut)]" if entry == "attr" else "#[derive(::derive_ex::Ex)]\n#[derive_ex(DerefMut)]"
+            code = (f"{head}\npub struct Ty(pub {fty});\nimpl ::core::ops::Deref for Ty {{ type Target = {tgt}; fn deref(&self) -> &{tgt} {{ &self.0 }} }}\n"
+                    f"pub fn run() {{ let mut x = Ty({val}); let q1 = (&mut *x) as *mut {tgt} as *mut u8 as usize; let q2 = (&mut x.0) as *mut {fty} as *mut u8 as usize; "
+                    f'::dxrt::ev!("deref_mut", "same_addr" => q1 == q2); }}')
+            mixed.append(C.Case(f"m{len(mixed)}", code, {"coerced": good, "what": f"{fty} -> {tgt} ({entry})"}))
+    _, mnotes = C.run_cases([c for c in mixed if not c.meta["coerced"]], "c18m", header=HEADER, batch_size=4)
+    _, mnotes2 = C.run_cases([c for c in mixed if c.meta["coerced"]], "c18n", header=HEADER, batch_size=1)
+    for n in mnotes + mnotes2:
+        rep.inconcl(n)
+    for c in mixed:
+        if c.status == "inconclusive":
+            continue
+        rep.evaluations += 1
+        rep.count("derefmut_next_to_handwritten_deref")
+        if c.meta["coerced"]:
+            if c.status == "ok":
+                rep.violation(f"C18|derefmut-accepts-coerced-target|{c.meta['what'].split()[0]}",
+                              f"DerefMut derived next to a hand-written Deref whose Target is not the field's type compiles ({c.meta['what']}): deref_mut does not return the field itself\n{c.code[:300]}",
+                              {"code": c.code, "expect_refused": True})
+        else:
+            if c.status != "ok" or not any(e.get("k") == "deref_mut" and e["same_addr"] is True for e in c.events):
+                rep.violation(f"C18|derefmut-alone|{c.meta['what'].split()[0]}", f"DerefMut alone next to a hand-written Deref<Target = field type> fails: {c.meta['what']}\n{c.code[:300]}", {"code": c.code})
     rep.sample({"source": cases[2].code, "events": cases[2].events})
     rep.sample({"refusal_request": reqs[10], "slots": [it["kind"] for it in obs[10].get("items", [])]})
     # canary: the refusal judge must flag an arity-2 struct reported as having arity 1
@@ -160,7 +189,10 @@ def run(rep, tier, rng):
 
 def replay(rep, path):
     j = json.load(open(path))["replay"]
-    if "code" in j:
+    if j.get("expect_refused"):
+        c = C.compile_single(j["code"], header=HEADER)
+        bad = c.status == "ok"
+    elif "code" in j:
         c = C.compile_single(j["code"], header=HEADER)
         bad = c.status == "compile_fail" or any(e.get(k) is False for e in c.events for k in ("same_addr", "target_is_field_type", "write_landed"))
     else:
